@@ -481,6 +481,22 @@ def check_cell(mn, m, cell, stats=None):
 
 
 def oracle_cells(rng, n):
+    for c, kind in _oracle_cells(rng, n):
+        if rng.random() < 0.18:
+            # lattices of other sizes (a reciprocal cell handed to reduce_cell has edges of 0.01-0.5; a super-structure 100-1000): the
+            # code's own 1e-5 thresholds are ABSOLUTE, on the cross product and on the height -- cells are kept where those are clear
+            # by a factor of 3 in the reviewed code, so that only a change of what the thresholds are applied to shows
+            f = 10.0 ** rng.choice([rng.uniform(-2.6, -1.3), rng.uniform(1.0, 2.0)])
+            if rng.random() < 0.5:
+                f = rng.uniform(0.0125, 0.03) / min(float(x) for x in c[:3])     # shortest edge 0.0125 .. 0.03: volume around 1e-5
+            c2 = [float(x) * f for x in c[:3]] + [float(x) for x in c[3:]]
+            if min(c2[:3]) ** 2 * 0.2 > 3e-5:          # |v x w| >= ab sin(gamma) ~ 0.2 * min^2 = 3 x the threshold 1e-5
+                yield c2, kind + ':scaled'
+                continue
+        yield c, kind
+
+
+def _oracle_cells(rng, n):
     for i in range(n):
         k = rng.choice(['gens', 'gens', 'transformed', 'transformed', 'ortho', 'symmetric', 'reduced'])
         if k == 'gens':
